@@ -784,7 +784,8 @@ def cli_check(run, mode, n, timeout=6000):
 def cli_absorb(run, cases, rows, sig_prefix):
     slim = {}
     for i, c in cases.items():
-        slim[i] = {k: c.get(k) for k in ("game", "fmt", "argv", "route", "fault", "class", "text", "printed", "exit", "stderr") if k in c}
+        # distinct = distinct (game, rendering, options, route); file names and outputs are not part of the case
+        slim[i] = {k: c.get(k) for k in ("game", "fmt", "opts", "route", "fault", "class", "text") if k in c}
     absorb(run, rows, slim, mismatch_sig(sig_prefix))
     run.notes["classes"] = class_counts(rows)
 
